@@ -28,7 +28,7 @@ man={
  "setup_cmd":"./setup.sh && ./prebuild.sh",
  "hooks":{
   "guard":"verif",
-  "enable":"go1.26.8 test -c -tags verif[,invariants] -overlay /verif/.build/overlay.json (runtime overlay + yield-instrumented copies of storage/pebble/storage.go and portalwire/table.go, table_reval.go + a yield hook file added to package portalwire by the overlay only); see build.sh",
+  "enable":"go1.26.8 test -c -tags verif[,invariants] -overlay <build dir>/instr.d/<key>/overlay.json: (a) runtime overlay of GOROOT files select.go, time.go, proc.go, rand.go, iface.go, malloc.go, sema.go (seeded streams, frozen real timers, seeded preemption, deterministic yields; DESIGN Appendix A); (b) yield-instrumented copies of storage/pebble/storage.go, portalwire/table.go, table_reval.go, portal_protocol.go, portal_protocol_v1.go made by instr/ at build time; (c) two files the overlay adds to repository packages without touching the repository: portalwire/zz_verif_yield.go (hook variables for table / offer path / gossip yields, VerifAppendBucketNodes) and storage/pebble/zz_verif_yieldlock.go; (d) the build-tag-guarded hook files committed in /repo (source_commits); see build.sh",
   "baseline_off_cmd":meta['baseline_off_cmd'],
   "source_commits":meta['hook_commits'],
   "add_only":True,
